@@ -5,21 +5,28 @@ SOURCES = ['repo:src/InputFunctions/DomainGeometry/*.cpp', 'repo:src/InputFuncti
            'repo:src/InputFunctions/BoundaryConditions/polarR6_Boundary_S*.cpp',
            'repo:src/InputFunctions/ExactSolution/cartesianR*.cpp', 'repo:src/InputFunctions/ExactSolution/polarR6_Ci*.cpp',
            'repo:src/InputFunctions/ExactSolution/polarR6_Cz*.cpp', 'repo:src/InputFunctions/ExactSolution/polarR6_S*.cpp',
-           'repo:src/InputFunctions/SourceTerms/*_Poisson_CircularGeometry.cpp', 'repo:src/InputFunctions/SourceTerms/*_Poisson_ShafranovGeometry.cpp', 'harness/C19.cpp']
+           'repo:src/InputFunctions/SourceTerms/cartesianR*.cpp', 'repo:src/InputFunctions/SourceTerms/polarR6_*_CircularGeometry.cpp',
+           'repo:src/InputFunctions/SourceTerms/polarR6_*_ShafranovGeometry.cpp', 'repo:src/InputFunctions/SourceTerms/polarR6_*_CzarnyGeometry.cpp', 'harness/C19.cpp']
 FLAGS = ['-DNDEBUG', '-include', '/verif/harness/vpi.h']   # M_PI as an opaque constant, see harness/vpi.h
 ASSUMPTIONS = [
     'decided: (1) the four Jacobian functions of Circular, Shafranov and Czarny geometry are the formal partial derivatives of Fx, Fy at every (r, theta), with sin(theta), cos(theta) as symbols s, c (s^2 + c^2 = 1, ds/dtheta = c, dc/dtheta = -s), parameters at their defaults and symbolic in (0,1) x (0,inf); Culham: the theta-derivatives at a concrete radius (its radial profiles are tabulated); (2) beta * alpha = 1 and alpha > 0 for the three gyro profiles for every 0 < r <= Rmax; (3) u_D and u_D_Interior equal the exact solution at every point, for the 9 (problem, geometry) pairs',
-    'source term = -div(alpha grad u) + beta u in the metric of the mapping: decided for PolarR6 / Poisson / Circular only (formal second derivatives of the exact solution, z3); NOT decided for the other 63 classes (Cartesian problems: compile-time rounded powers of pi make exact equality false by ~1e-16; larger classes: solver time), the radial derivatives of the Culham mapping (tabulated ODE solution), the selection tables of select_test_case.cpp',
+    'source term = -div(alpha grad u) + beta u in the metric of the mapping (formal second derivatives of the exact solution): DECIDED by z3 for 15 of the 63 non-Culham classes - Circular geometry x {Poisson, Zoni, ZoniShifted, ZoniGyro, ZoniShiftedGyro} x {CartesianR2, CartesianR6, PolarR6}. For these M_PI is an opaque symbol (harness/vpi.h, force-included: the identity is formal in pi) and double literals with at most 9 significant digits are read as the decimals the programmer wrote (0.4096 * 6 = 2.4576 exactly); sin(k theta), cos(k theta) for k <= 4 are tied to the symbols s, c by the multiple-angle formulas',
+    'the other 48 classes are REFUTATION-ONLY jobs: the identity is evaluated at three explicit points of the domain with true function values and, where it fails, the point is replayed natively against a fourth-order finite-difference evaluation of the operator (tolerance 2e-5 relative). Nothing is claimed for them when no counterexample is found: Sonnendrucker(Gyro) profiles ship 15-digit truncations of 130/9, 10/13, ... (identity true to ~1e-15 only; solver models below the replay tolerance), Shafranov/Czarny geometry: timeout with both solvers. Not addressed at all: the Culham class, the selection tables of select_test_case.cpp',
     'formal differentiation is done by the encoder (chain rule through sqrt, exp, atan, tanh, sin, cos, pow); the solver decides the resulting identities over the atoms with sqrt axioms t >= 0, t^2 = x, Pythagorean identities for every sin/cos pair and exp(a) exp(-a) = 1 where both occur; exact real arithmetic',
 ]
-OUTSIDE = ['the source-term identities', 'Culham r-derivatives', 'RefinedRadius problem classes']
-BOUNDS = {'quick': 'Jacobians: 4 geometries (default and symbolic parameters); 3 gyro profiles; 9 boundary/exact-solution pairs', 'thorough': 'same'}
+OUTSIDE = ['a proof of the source-term identity for 48 of the 63 classes (refutation only)', 'Culham r-derivatives and the Culham source term', 'RefinedRadius problem classes']
+BOUNDS = {'quick': 'Jacobians: 4 geometries (default and symbolic parameters); 3 gyro profiles; 9 boundary/exact-solution pairs; source-term identity: 15 classes decided, 48 refutation-only (3 explicit points each, solver caps 10 s)', 'thorough': 'same, solver caps 120 s for the refutation-only classes'}
 
 
-# source-term identity: only the class z3 decides exactly.  CartesianR2/R6 (both geometries): the shipped formulas contain compile-time
-# rounded powers of pi (8.0 * (M_PI * M_PI) is one double), so exact equality with the formal derivative fails by ~1e-16 relative
-# (solver models do not reproduce natively: treated as inconclusive, not as findings); PolarR6 on Shafranov: timeout at 240 s.
-SOURCE_CLASSES = ((2, 0), (0, 0), (1, 0), (0, 1), (1, 1), (2, 1))
+# source-term identity.  M_PI is an opaque symbol (harness/vpi.h) and short decimal literals are read as decimals (job option
+# decimal_literals): without these clang's folded 8.0 * (M_PI * M_PI) and 2.4576 = 6 * 0.4096 make exact equality false by one rounding.
+import os
+# Decided (z3, <= 150 s each): Circular geometry x the five profiles without atan x the three problems = 15 of the 63 classes.
+# Not decided: the Sonnendrucker(Gyro) profiles (their shipped constants are 15-digit truncations of 130/9, 10/13, ...: the identity
+# holds to ~1e-15 only, z3 returns models that differ from it by that much and nothing reproduces natively); Shafranov and Czarny
+# geometry (timeout at 150 s with both solvers).  C19_ALL_SOURCE=1 registers all 63 for experiments.
+SOURCE_CLASSES = (tuple((pr, g, prof) for pr in range(3) for g in range(3) for prof in range(7)) if os.environ.get('C19_ALL_SOURCE')
+                  else tuple((pr, 0, prof) for pr in range(3) for prof in (0, 2, 3, 5, 6)))
 
 
 def jobs(tier, seed):
@@ -35,16 +42,38 @@ def jobs(tier, seed):
         for g in range(3):
             J.append(dict(entry='h_boundary', args=[pr, g], label=f'boundary {pn} {GN[g]}', cls='boundary', reach=['classes-built'], eager=False, diff=True, witness=False, cap_quick=240))
     PN = ('CartesianR2', 'CartesianR6', 'PolarR6')
-    for (pr, g) in SOURCE_CLASSES:
+    PR = ('Poisson', 'Sonnendrucker', 'Zoni', 'ZoniShifted', 'SonnendruckerGyro', 'ZoniGyro', 'ZoniShiftedGyro')
+    for (pr, g, prof) in SOURCE_CLASSES:
         if True:
-            J.append(dict(entry='h_source_term', args=[pr, g], label=f'source term {PN[pr]} Poisson {GN[g]}', cls='source-term', reach=['classes-built'], eager=False, diff=True, witness=False, decimal_literals=True,
-                          cap_quick=240, cap_thorough=600))
+            J.append(dict(entry='h_source_term', args=[pr, g, prof], label=f'source term {PN[pr]} {PR[prof]} {GN[g]}', cls=f'source-term-{PN[pr]}-{PR[prof]}-{GN[g]}', reach=['classes-built'], eager=False, diff=True, witness=False, decimal_literals=True, margin_rel='0.0002',
+                          cap_quick=int(os.environ.get('C19_CAP', 240)), cap_thorough=600))
+    # the other 48 classes: beyond the solver on a correct tree (see SOURCE_CLASSES).  Registered as refutation-only jobs: the
+    # identity is evaluated at explicit points of the domain (true sin/cos/tanh/atan values) and, where it fails there, the
+    # point is replayed natively against a fourth-order finite-difference evaluation of the operator; nothing is claimed
+    # for them when no counterexample is found (evidence: refutation_only_not_decided)
+    import math
+    pts = []
+    for (tn, td, r) in ((1, 2, 0.3), (-3, 2, 0.7), (5, 3, 1.1)):
+        t = tn / td
+        sv, cv = 2 * t / (1 + t * t), (1 - t * t) / (1 + t * t)
+        from fractions import Fraction as _F
+        sx, cx = _F(2 * tn * td, td * td + tn * tn), _F(td * td - tn * tn, td * td + tn * tn)
+        pts.append({'r_0_0': str(_F(r).limit_denominator(100)), 'theta_0_0': math.atan2(sv, cv), 's_0_0': str(sx), 'c_0_0': str(cx), 'pi': math.pi})
+    if not os.environ.get('C19_ALL_SOURCE'):
+        for pr in range(3):
+            for g in range(3):
+                for prof in range(7):
+                    if (pr, g, prof) in SOURCE_CLASSES:
+                        continue
+                    J.append(dict(entry='h_source_term', args=[pr, g, prof], label=f'source term (refutation only) {PN[pr]} {PR[prof]} {GN[g]}', cls=f'source-term-{PN[pr]}-{PR[prof]}-{GN[g]}',
+                                  reach=['classes-built'], eager=False, witness=True, witness_points=pts, real_ufs=True, decimal_literals=True, undecided_ok=True,
+                                  margin_rel='0.0002', cap_quick=10, cap_thorough=120, solver_budget_quick=25))
     return J
 
 
 LEVEL_TEXT = ('Bounded symbolic verification of the input-function classes: each shipped geometry / profile / boundary / exact-solution class is executed symbolically at an arbitrary point '
               '(r, theta, sin theta, cos theta symbolic); the encoder differentiates the mapping formally and z3 proves the Jacobian functions equal those derivatives, beta = 1/alpha '
-              'for the gyro profiles and boundary data = exact solution, for ALL points (and parameter values). The source-term identity is decided for one class only (PolarR6/Poisson/Circular).')
-LEVEL_NOTE = 'partial claim: Jacobians, beta = 1/alpha, boundary data; source-term identity only for PolarR6/Poisson/Circular; Culham only in theta at a concrete radius'
+              'for the gyro profiles and boundary data = exact solution, for ALL points (and parameter values). The source-term identity f = -div(alpha grad u) + beta u is decided for the 15 Circular-geometry classes without atan profiles; the other 48 classes are searched for counterexamples only.')
+LEVEL_NOTE = 'partial claim: Jacobians, beta = 1/alpha, boundary data; source-term identity proved for 15 of 63 classes, refutation-only for the rest; Culham only in theta at a concrete radius'
 TECHNIQUE = 'symbolic execution of LLVM IR (llsym) + formal differentiation of the term DAG + SMT (z3 QF_NRA with sqrt / trigonometric / exponential axioms)'
 DESIGN_REF = 'DESIGN.md section 6/C19'
